@@ -42,6 +42,9 @@ var (
 
 const maxOIDLength = 10
 
+// x25519PublicKeySize is the length of a Curve25519 public key (RFC 7748).
+const x25519PublicKeySize = 32
+
 // ecdsaKey stores the algorithm-specific fields for ECDSA keys.
 // as defined in RFC 6637, Section 9.
 type ecdsaKey struct {
@@ -183,6 +186,9 @@ func (f *eddsaKey) newEdDSA() (interface{}, error) {
 	if bytes.Equal(f.oid, oidEd25519) {
 		// ... the octet string specifying the point is prefixed with the octet 0x40.
 		// https://datatracker.ietf.org/doc/html/draft-ietf-openpgp-rfc4880bis-01#section-13.3
+		if len(f.p.bytes) != 1+ed25519.PublicKeySize {
+			return nil, errors.UnsupportedError("unsupported EdDSA point length: " + strconv.Itoa(len(f.p.bytes)))
+		}
 		return ed25519.PublicKey(f.p.bytes[1:]), nil
 	}
 	return nil, errors.UnsupportedError("unknown EdDSA curve")
@@ -192,6 +198,9 @@ func (f *eddsaKey) newX25519() (interface{}, error) {
 	if bytes.Equal(f.oid, oidX25519) {
 		// ... the octet string specifying the point is prefixed with the octet 0x40.
 		// https://datatracker.ietf.org/doc/html/draft-ietf-openpgp-rfc4880bis-01#section-13.3
+		if len(f.p.bytes) != 1+x25519PublicKeySize {
+			return nil, errors.UnsupportedError("unsupported X25519 point length: " + strconv.Itoa(len(f.p.bytes)))
+		}
 		return f.p.bytes[1:], nil
 	}
 	return nil, errors.UnsupportedError("unknown ECDH curve")
